@@ -18,13 +18,25 @@ func init() {
 				{`n3 = "new"`, `func g(u){u*u}`, `n4 = {a: b}`, `del(x)`},
 				{},
 			}
+			if tier == "thorough" {
+				states = append(states,
+					[]string{`k1 = a`, `k2 = b`, `k3 = [a, b]`, `k4 = "four"`, `k5 = {1: a}`, `func k6(n){n*2}`, `k7 = 7.5`, `k8 = nil`},
+					[]string{`big = [1,2,3,4,5,6,7,8,9,10,11,12]`, `bm = {1:1,2:2,3:3,4:4,5:5,6:a}`})
+				news = append(news,
+					[]string{`del(x)`, `del(s)`, `del(f)`},
+					[]string{`q1 = a`, `q2 = b`, `q3 = a + b`, `q4 = [a]`, `q5 = "s"`, `func q6(){1}`, `q7 = {a: b}`, `q8 = true`})
+			}
 			var jobs []Job
 			for _, p := range states {
 				for _, n := range news {
 					args := append([]string{}, p...)
 					args = append(args, "--")
 					args = append(args, n...)
-					args = append(args, "9")
+					if tier == "thorough" {
+						args = append(args, "16")
+					} else {
+						args = append(args, "9")
+					}
 					jobs = append(jobs, Job{Prop: "C18", Pkg: "repl", Func: "VerifAutoSave", Args: args, MaxDec: 800})
 				}
 			}
@@ -49,7 +61,7 @@ func init() {
 		},
 		Budget: map[string]time.Duration{"quick": 6 * time.Minute, "thorough": 30 * time.Minute},
 		Reach:  []string{"killed during auto-save", "auto-save completed", "second save killed", "third save completed", "save with a vanished temporary file", "long state reloaded"},
-		Bounds: map[string]interface{}{"states": "previous state of 0, 1, 3 and 4 bindings x new state adding/changing/deleting 0..4 bindings (16 combinations), values a, b all int64",
+		Bounds: map[string]interface{}{"states": "previous state of 0, 1, 3 and 4 bindings x new state adding/changing/deleting 0..4 bindings (16 combinations; thorough: 6 previous states up to 8 bindings x 6 changes up to 8 bindings, crash points up to 16), values a, b all int64",
 			"long_lines": "6 states with a named function of 30..5000 bytes and a string of 15..3000 bytes under value-length limits 0, 20, 50, 64, 100: what auto-save wrote auto-load restores", "histories": "4 histories of three sessions: a crash-free save, a save of a larger state killed at every crash point 0..12 (leftover temporary files), then a save of a smaller state that completes - or whose temporary file vanishes before the rename (a failed save)", "crash_points": "every crash point: before and after creating the temporary file, after each written binding, after the last write, after the rename (index -1 = no crash .. 9)"},
 		Assumptions: []string{"crash points are the build-tag-guarded hook calls in repl.AutoSave and object.SaveGlobals (commit 04499b7): the process 'dies' by a panic raised from the hook, which the code under test does not recover",
 			"file-system model: rename within one directory is atomic; bytes accepted by Write survive the death of the process; no fsync / power-loss modelling; write failures are not injected (no native counterpart)"},
